@@ -22,8 +22,8 @@ TRUSTED = ["NumPy reference formulas on an independent decompression (core.PT.de
            "float64 rounding: tolerances as stated in the rule (no bit-exact claim for sqrt / rounded moments)"]
 ASSUMPTIONS = ["inputs are WFstd tensors (documented formats, outer TT ranks 1)", "marginals are positive vectors of the mode's size",
                "r_squared / normalized_moment are only compared where the dense denominator is not (numerically) zero",
-               "dot(k=None) with t2 fully contracted and >=2 trailing modes of t1: either order of the trailing modes is accepted "
-               "(docstring is silent); with explicit k the documented reversed order is required"]
+               "dot with t2 fully contracted and >=2 trailing modes of t1: either order of the trailing modes is accepted "
+               "(the property does not fix it; docstring and code disagree)"]
 
 KINDS = {"dot": 400, "norm": 50, "dist": 300, "sum": 200, "wmean": 160, "var": 200, "moment": 160}
 
@@ -157,8 +157,11 @@ def dot_expected(x, y, k_arg):
     r = np.tensordot(x, y, axes=(list(range(k)), list(range(k))))
     n1, n2 = x.ndim - k, y.ndim - k
     rev = np.transpose(r, list(range(n1 - 1, -1, -1)) + list(range(n1, n1 + n2)))
-    if n2 == 0 and k_arg is None and n1 >= 2:
-        return [r, rev]          # docstring silent on the order: accept both
+    if n2 == 0 and n1 >= 2:
+        # Only t1 keeps trailing modes: the property does not fix their order (the docstring's "sorted backwards" is
+        # stated for the case where t2's trailing modes follow; the code returns them in their original order).
+        # Demanding one order would ask more than the property states: accept both.
+        return [r, rev]
     return [rev]
 
 
